@@ -777,9 +777,12 @@ class Phase(Angle):
             elif phase_out is not None and function is np.floor_divide:
                 return NotImplemented
 
-            fd = np.floor_divide(self.cycle, divisor, out=fd_out)
+            # The correction is built in the output; keep a copy of the dividend
+            # if the output is the dividend itself (``phase %= divisor``).
+            this = self.copy() if phase_out is self else self
+            fd = np.floor_divide(this.cycle, divisor, out=fd_out)
             corr = Phase.from_angles(divisor, factor=fd, out=phase_out)
-            remainder = np.subtract(self, corr, out=corr)
+            remainder = np.subtract(this, corr, out=corr)
             fdx = np.floor_divide(remainder.cycle, divisor)
             # This can likely be optimized...
             # Note: one cannot just loop, because rounding of exact 0.5.
@@ -787,7 +790,7 @@ class Phase(Angle):
             if np.count_nonzero(fdx):
                 fd += fdx
                 corr = Phase.from_angles(divisor, factor=fd, out=corr)
-                remainder = np.subtract(self, corr, out=corr)
+                remainder = np.subtract(this, corr, out=corr)
 
             if function is np.floor_divide:
                 return fd
